@@ -592,6 +592,24 @@ def temp_before_return(sources: Dict[str, str]) -> Dict[str, str]:
     return res
 
 
+def de_morgan_tests(sources: Dict[str, str]) -> Dict[str, str]:
+    """Every `if` / `while` / conditional-expression test that is `a or b` becomes `not (not a and not b)` and every
+    `a and b` becomes `not (not a or not b)` (top-level operator of the test only)."""
+    def neg(e):
+        return e.operand if isinstance(e, ast.UnaryOp) and isinstance(e.op, ast.Not) else ast.UnaryOp(op=ast.Not(), operand=e)
+    out = {}
+    for p, s in sources.items():
+        tree = ast.parse(s)
+        for n in ast.walk(tree):
+            if isinstance(n, (ast.If, ast.While, ast.IfExp)) and isinstance(n.test, ast.BoolOp):
+                t = n.test
+                inner = ast.BoolOp(op=ast.And() if isinstance(t.op, ast.Or) else ast.Or(), values=[neg(v) for v in t.values])
+                n.test = ast.UnaryOp(op=ast.Not(), operand=inner)
+        ast.fix_missing_locations(tree)
+        out[p] = ast.unparse(tree)
+    return out
+
+
 def rename_all_locals(sources: Dict[str, str]) -> Dict[str, str]:
     out = {}
     for p, s in sources.items():
@@ -663,6 +681,8 @@ def _worker(args):
             overlay = invert_continue_guards(sources)
         elif m.old == "<temp-before-return>":
             overlay = temp_before_return(sources)
+        elif m.old == "<de-morgan-tests>":
+            overlay = de_morgan_tests(sources)
         elif m.old == "<keywords-at-call-sites>":
             overlay = keywords_at_call_sites(sources)
         elif m.old == "<swap-if-else>":
@@ -711,6 +731,7 @@ GENERIC = [
     M("alias self.context into a local at the start of every method that only reads it", "", None, "<alias-self-context>", "", kind="equiv"),
     M("loop guards `if c: continue` rewritten as `if not c: <rest of the body>`", "", None, "<invert-continue-guards>", "", kind="equiv"),
     M("every non-trivial return value goes through a temporary (t = E; return t)", "", None, "<temp-before-return>", "", kind="equiv"),
+    M("De Morgan: every boolean if / while / conditional test rewritten as the negation of the dual", "", None, "<de-morgan-tests>", "", kind="equiv"),
     M("methods of every class in reverse source order", "", None, "<reverse-methods>", "", kind="equiv"),
     M("swap the branches of every plain if/else under the negated test", "", None, "<swap-if-else>", "", kind="equiv"),
     M("annotate every local that is assigned once (x = v  ->  x: object = v)", "", None, "<annotate-single-assignments>", "", kind="equiv"),
